@@ -23,7 +23,13 @@ import (
 // key-input buffer is the field hashed by blake2b, etc.  Offsets and lengths are
 // compared as linear forms over SSA values (c13lin), looking through helper
 // calls by substituting parameters (c13env), so that extracting the XOR loop or
-// the key derivation into helpers does not change the verdict.
+// the key derivation into helpers does not change the verdict.  The wrapper
+// rules (R3) find the inner calls in ReadFrom/WriteTo or in the obfs helpers
+// they call, and follow a returned count through φ nodes, local variables kept
+// in memory (named results spilled by a defer) and helper results, one helper
+// return at a time (c13leaves); a guard may sit in the helper or in the caller,
+// directly or as a boolean flag the helper computed (c13anchors.implies).  The
+// constructor may build the object with a composite literal or field by field.
 
 const (
 	c13blake   = "golang.org/x/crypto/blake2b"
@@ -37,9 +43,9 @@ func init() {
 		ID:        "C13",
 		Run:       checkC13,
 		Technique: "static analysis: symbolic (linear) offsets/lengths over SSA with parameter substitution through helpers, value provenance of the XOR key, lockset + content-use census of the shared buffers, edge-guard reachability of returns (go/ssa)",
-		Explanation: "R1 spec shape: in Obfuscate and Deobfuscate every XOR store combines plaintext byte j with key[j mod 32] and wire byte j+8; the key is the by-value result of blake2b.Sum256 (the only blake2b entry point used) over the whole key-input buffer, whose tail at offset len(PSK) is overwritten, in the same function, with exactly the 8 bytes at wire offset 0; the constructor sizes that buffer len(PSK)+8 and copies the PSK (a copy of the caller's key) to offset 0; the methods return 0 or len(in)+8 / len(in)-8. " +
+		Explanation: "R1 spec shape: in Obfuscate and Deobfuscate every XOR store combines plaintext byte j with key[j mod 32] and wire byte j+8; the key is the by-value result of blake2b.Sum256 (the only blake2b entry point used) over the whole key-input buffer, whose tail at offset len(PSK) is overwritten, in the same function, with exactly the 8 bytes at wire offset 0; the constructor sizes that buffer len(PSK)+8 and copies the PSK (a copy of the caller's key) to offset 0 before the object is handed out (composite literal or field-wise construction); the methods return 0 or len(in)+8 / len(in)-8. " +
 			"R2 shared buffer: the hash and the salt copy run in one critical section of the obfuscator's mutex, every use of the key-input buffer's contents holds it, and the key leaves the critical section by value (its origin is never receiver-owned storage). " +
-			"R3 wrapper: WriteTo obfuscates p into the write buffer and sends exactly writeBuf[:nn] to the caller's address inside one critical section, returning len(p) (0 only on the error edge); ReadFrom deobfuscates readBuf[:n] of the inner read into p inside one critical section and every return is reachable only over `deobfuscated n > 0`, `err != nil` or (for the raw count) `n <= 0` – otherwise it loops; both buffers' contents are used only under their mutex. " +
+			"R3 wrapper: WriteTo obfuscates p into the write buffer and sends exactly writeBuf[:nn] to the caller's address inside one critical section, returning len(p) (0 only on the error edge); ReadFrom deobfuscates readBuf[:n] of the inner read into p inside one critical section and every return is reachable only over `deobfuscated n > 0`, `err != nil` or (for the raw count) `n <= 0` – otherwise it loops; both buffers' contents are used only under their mutex; the inner calls, counts and guards are followed into obfs helpers of ReadFrom/WriteTo (per helper return, including boolean retry flags). " +
 			"R4 short keys: the constructor returns an obfuscator only over the edge len(psk) >= 4 (exactly) and a non-nil error otherwise; every caller chain (WrapPacketConnSalamander, WrapPacketConnGecko, app wrapObfs) uses the result only on the err == nil edge.",
 		NotDecided: []string{
 			"actual wire bytes for all keys/salts and interoperability with other implementations (needs execution against an independent BLAKE2b)",
@@ -138,6 +144,123 @@ type c13env struct {
 	fn   *ssa.Function
 	call *ssa.Call // site in up.fn that entered fn; nil for the entry
 	up   *c13env
+	// fresh: (constructor) loads of a field of an object allocated in fn are
+	// replaced by the single dominating store into that field, so that
+	// `ob.f = x; use(ob.f)` reads like `use(x)`
+	fresh bool
+	// bind: results of these helper calls are read as the results of one
+	// particular return of the helper (set while c13leaves expands that return)
+	bind map[*ssa.Call]*c13bound
+	// ld: loads of a local variable read as the value of one particular
+	// reaching store (set while c13leaves expands that store)
+	ld map[*ssa.UnOp]ssa.Value
+}
+
+type c13bound struct {
+	ret *ssa.Return
+	env *c13env
+}
+
+// c13reachingStores: u loads a local variable whose address does not escape;
+// returns the stores that may have written the value it reads.  ok is false
+// when u is not such a load or the variable's zero value may reach it.
+func c13reachingStores(u *ssa.UnOp) ([]*ssa.Store, bool) {
+	al, ok := u.X.(*ssa.Alloc)
+	if !ok || al.Referrers() == nil || u.Block() == nil {
+		return nil, false
+	}
+	for _, r := range *al.Referrers() {
+		switch x := r.(type) {
+		case *ssa.Store:
+			if x.Addr != ssa.Value(al) {
+				return nil, false
+			}
+		case *ssa.UnOp, *ssa.DebugRef:
+		default:
+			return nil, false
+		}
+	}
+	var found []*ssa.Store
+	zero := false
+	seen := map[*ssa.BasicBlock]bool{}
+	var back func(b *ssa.BasicBlock, from int)
+	back = func(b *ssa.BasicBlock, from int) {
+		for i := from; i >= 0; i-- {
+			if st, ok := b.Instrs[i].(*ssa.Store); ok && st.Addr == ssa.Value(al) {
+				for _, f := range found {
+					if f == st {
+						return
+					}
+				}
+				found = append(found, st)
+				return
+			}
+		}
+		if len(b.Preds) == 0 {
+			zero = true
+			return
+		}
+		for _, p := range b.Preds {
+			if !seen[p] {
+				seen[p] = true
+				back(p, len(p.Instrs)-1)
+			}
+		}
+	}
+	back(u.Block(), instrIndex(u)-1)
+	if zero || len(found) == 0 {
+		return nil, false
+	}
+	return found, true
+}
+
+// c13resultOf: v is result #idx of a call (`extract call #idx` or a
+// single-result call itself).
+func c13resultOf(v ssa.Value) (*ssa.Call, int) {
+	switch x := v.(type) {
+	case *ssa.Extract:
+		if call, ok := x.Tuple.(*ssa.Call); ok {
+			return call, x.Index
+		}
+	case *ssa.Call:
+		if _, isT := x.Type().(*types.Tuple); !isT {
+			return x, 0
+		}
+	}
+	return nil, -1
+}
+
+// c13freshFieldLoad: v loads field f of an object allocated in the same
+// function whose field f is stored exactly once, before the load.
+func c13freshFieldLoad(v ssa.Value) ssa.Value {
+	u, ok := v.(*ssa.UnOp)
+	if !ok || u.Op != token.MUL {
+		return nil
+	}
+	fa, ok := u.X.(*ssa.FieldAddr)
+	if !ok {
+		return nil
+	}
+	al, ok := resolve(fa.X).(*ssa.Alloc)
+	if !ok || al.Parent() != u.Parent() {
+		return nil
+	}
+	var st *ssa.Store
+	n := 0
+	allInstrs(u.Parent(), func(in ssa.Instruction) {
+		s, ok := in.(*ssa.Store)
+		if !ok {
+			return
+		}
+		if fb, ok := s.Addr.(*ssa.FieldAddr); ok && fb.Field == fa.Field && resolve(fb.X) == ssa.Value(al) {
+			st = s
+			n++
+		}
+	})
+	if n != 1 || !dominates(st, u) {
+		return nil
+	}
+	return st.Val
 }
 
 func (e *c13env) onStack(f *ssa.Function) bool {
@@ -154,6 +277,35 @@ func (e *c13env) onStack(f *ssa.Function) bool {
 func (e *c13env) subst(v ssa.Value) (ssa.Value, *c13env) {
 	for i := 0; i < 64 && v != nil; i++ {
 		v = resolve(v)
+		if e != nil && len(e.bind) > 0 {
+			if call, idx := c13resultOf(v); call != nil {
+				if b := e.bind[call]; b != nil {
+					if res := retResults(b.ret); idx < len(res) {
+						v, e = res[idx], b.env
+						continue
+					}
+				}
+			}
+		}
+		if e != nil && e.fresh {
+			if sv := c13freshFieldLoad(v); sv != nil {
+				v = sv
+				continue
+			}
+		}
+		if u, ok := v.(*ssa.UnOp); ok && u.Op == token.MUL {
+			// local variable kept in memory (e.g. a named result spilled because of
+			// a defer): the store bound by c13leaves, or the only store reaching
+			// the load
+			if e != nil && e.ld[u] != nil {
+				v = e.ld[u]
+				continue
+			}
+			if sts, ok := c13reachingStores(u); ok && len(sts) == 1 {
+				v = sts[0].Val
+				continue
+			}
+		}
 		p, ok := v.(*ssa.Parameter)
 		if !ok || e == nil || e.up == nil || p.Parent() != e.fn {
 			return v, e
@@ -452,35 +604,39 @@ func c13resolve(c *Check) *c13anchors {
 	}
 	// the conn wrapper: the callee that receives the obfuscator and stores it
 	// into a field of a freshly allocated struct
-	allInstrs(a.wrapFn, func(in ssa.Instruction) {
-		call, ok := in.(*ssa.Call)
-		if !ok || a.connT != nil {
-			return
-		}
-		f := staticCallee(call)
-		if f == nil || !a.inObfs(f) {
-			return
-		}
-		for i, arg := range call.Call.Args {
-			if resolve(arg) != obVal || i >= len(f.Params) {
-				continue
+	// (followed through up to three levels of obfs helpers the value is handed to)
+	var follow func(fn *ssa.Function, val ssa.Value, depth int)
+	follow = func(fn *ssa.Function, val ssa.Value, depth int) {
+		allInstrs(fn, func(in ssa.Instruction) {
+			if a.connT != nil {
+				return
 			}
-			prm := f.Params[i]
-			allInstrs(f, func(x ssa.Instruction) {
-				st, ok := x.(*ssa.Store)
-				if !ok || resolve(st.Val) != ssa.Value(prm) {
+			switch x := in.(type) {
+			case *ssa.Store:
+				if resolve(x.Val) != val {
 					return
 				}
-				if fa, ok := st.Addr.(*ssa.FieldAddr); ok {
+				if fa, ok := x.Addr.(*ssa.FieldAddr); ok {
 					if al, ok := resolve(fa.X).(*ssa.Alloc); ok {
 						if n := namedOf(al.Type()); n != nil {
-							a.connT, a.connCtor = n, f
+							a.connT, a.connCtor = n, fn
 						}
 					}
 				}
-			})
-		}
-	})
+			case *ssa.Call:
+				f := staticCallee(x)
+				if f == nil || !a.inObfs(f) || depth >= 3 || f == fn {
+					return
+				}
+				for i, arg := range x.Call.Args {
+					if resolve(arg) == val && i < len(f.Params) {
+						follow(f, f.Params[i], depth+1)
+					}
+				}
+			}
+		})
+	}
+	follow(a.wrapFn, obVal, 0)
 	if a.connT == nil {
 		c.Unres("packet-conn wrapper type storing the obfuscator (callee of WrapPacketConnSalamander)")
 		return nil
@@ -840,14 +996,27 @@ func (s *c13state) method(M *ssa.Function, isObf bool) {
 		s.hashFns[e.fn] = true
 		// copies into the buffer inside the hashing function
 		var copies []*ssa.Call
+		var recopied []*types.Var
 		allInstrs(e.fn, func(in ssa.Instruction) {
 			call, ok := in.(*ssa.Call)
 			if !ok || !isBuiltinCall(call, "copy") {
 				return
 			}
-			if e.locOfSlice(call.Call.Args[0]).isField(recv, fBuf) {
-				copies = append(copies, call)
+			d := e.locOfSlice(call.Call.Args[0])
+			if !d.isField(recv, fBuf) {
+				return
 			}
+			// re-copying another whole field of the receiver (the PSK) to offset
+			// 0 rebuilds what the constructor already put there: not the salt copy
+			if do, ok := d.off.isConst(); ok && do == 0 {
+				sl := e.locOfSlice(call.Call.Args[1])
+				if so, ok := sl.off.isConst(); ok && so == 0 && sl.root.kind == "field" && sl.root.v == ssa.Value(recv) && sl.root.f != fBuf &&
+					e.lenOf(call.Call.Args[1]).equal(c13term(c13key{kind: "lenf", v: recv, f: sl.root.f})) {
+					recopied = append(recopied, sl.root.f)
+					return
+				}
+			}
+			copies = append(copies, call)
 		})
 		if len(copies) != 1 {
 			c.Bad(key+":salt-copy", c13r1, p.InstrPos(hc), fmt.Sprintf("%d copies into %s in %s, want exactly one (the salt)", len(copies), fBuf.Name(), fnName(e.fn)))
@@ -869,6 +1038,11 @@ func (s *c13state) method(M *ssa.Function, isObf bool) {
 				s.fPSK = fPSK
 			} else if s.fPSK != fPSK {
 				c.Bad(key+":same-psk", c13r1, p.InstrPos(cp), "Obfuscate and Deobfuscate use different PSK fields")
+			}
+			for _, f := range recopied {
+				if f != fPSK {
+					c.Bad(key+":salt-copy", c13r1, p.InstrPos(hc), "field "+f.Name()+" (not the PSK the salt is appended to) is copied to the start of "+fBuf.Name()+" before hashing")
+				}
 			}
 		}
 		// destination runs to the end of the buffer
@@ -931,14 +1105,23 @@ func (s *c13state) method(M *ssa.Function, isObf bool) {
 			c.Req(good, "C13.R1:"+mname+":returns", c13r1, p.InstrPos(r), fmt.Sprintf("returns %s, want 0 or len(in)%+d (the wrapper sends / reports exactly that many bytes)", l, want))
 		}
 	})
-	c.Floor("C13.R1:"+mname+":returns", nRet, 2)
+	c.Floor("C13.R1:"+mname+":returns", nRet, 1)
 }
 
 // constructor: layout of the key-input buffer and the length guard.
 func (s *c13state) constructor() {
 	c, p, a := s.c, s.c.P, s.a
 	ct := a.ctor
-	env := &c13env{fn: ct}
+	env := &c13env{fn: ct, fresh: true}
+	// returns that hand out an obfuscator
+	var objRets []*ssa.Return
+	allInstrs(ct, func(in ssa.Instruction) {
+		if r, ok := in.(*ssa.Return); ok {
+			if res := retResults(r); len(res) >= 1 && !isNilConst(res[0]) {
+				objRets = append(objRets, r)
+			}
+		}
+	})
 	// the []byte parameter
 	var psk *ssa.Parameter
 	n := 0
@@ -993,7 +1176,17 @@ func (s *c13state) constructor() {
 					so, soC := src.off.isConst()
 					do, doC := dst.off.isConst()
 					srcIsPSK := src.root.v == pv && soC && so == 0 && env.lenOf(call.Call.Args[1]).equal(env.lenOf(pv))
-					if doC && do == 0 && srcIsPSK && dominates(call, stBuf) {
+					// the copy happens before the object is handed out: before the
+					// buffer is stored into it, or (field-wise construction) on
+					// every path to a return of the object
+					before := dominates(call, stBuf)
+					if !before && len(objRets) > 0 {
+						before = true
+						for _, r := range objRets {
+							before = before && dominates(call, r)
+						}
+					}
+					if doC && do == 0 && srcIsPSK && before {
 						good = true
 					} else {
 						det = fmt.Sprintf("copy into %s at offset %s from %s+%s: want the whole PSK at offset 0 (hash input = PSK || salt)", s.fBuf.Name(), dst.off, src.root.kind, src.off)
@@ -1159,48 +1352,286 @@ func (s *c13state) bufferR2() {
 	s.c.Floor("C13.R2:lock", n, 1)
 }
 
-// fieldInvoke finds the interface-method call `recv.<field>.<method>(...)`.
-func c13fieldInvoke(fn *ssa.Function, method string) *ssa.Call {
+// findInvoke finds the unique interface-method call `recv.<field>.<method>(...)`
+// in the wrapper method root.fn or in the obfs helpers it calls (the receiver is
+// followed through the helpers' parameters); returns the call and the context
+// it was found in.
+func (a *c13anchors) findInvoke(root *c13env, method string) (*ssa.Call, *c13env) {
 	var out *ssa.Call
+	var oe *c13env
 	n := 0
-	allInstrs(fn, func(in ssa.Instruction) {
+	a.walk(root, 0, func(in ssa.Instruction, e *c13env) {
 		call, ok := in.(*ssa.Call)
 		if !ok || !invokeIs(call, method) {
 			return
 		}
-		if fa, _ := c13fieldLoad(resolve(call.Call.Value)); fa == nil || resolve(fa.X) != ssa.Value(fn.Params[0]) {
+		fa, _ := c13fieldLoad(resolve(call.Call.Value))
+		if fa == nil {
 			return
 		}
-		out = call
+		if r, _ := e.subst(fa.X); r != ssa.Value(root.fn.Params[0]) {
+			return
+		}
+		out, oe = call, e
 		n++
 	})
 	if n != 1 {
-		return nil
+		return nil, nil
 	}
-	return out
+	return out, oe
 }
 
-func c13errNonNil(errv ssa.Value) EdgePred {
-	return func(cond ssa.Value, pol bool) bool {
-		x, isNil, ok := nilTest(cond, pol)
-		return ok && !isNil && errv != nil && resolve(x) == errv
-	}
-}
-
-type c13src struct {
-	v        ssa.Value
-	from, to *ssa.BasicBlock
-}
-
-func c13sources(r *ssa.Return, v ssa.Value) []c13src {
-	if ph, ok := v.(*ssa.Phi); ok {
-		var out []c13src
-		for i, e := range ph.Edges {
-			out = append(out, c13src{e, ph.Block().Preds[i], ph.Block()})
+// c13lift maps two instructions found in (possibly different) helper contexts
+// to instructions of one function: the call sites in their deepest common
+// context.
+func c13lift(x ssa.Instruction, ex *c13env, y ssa.Instruction, ey *c13env) (ssa.Instruction, ssa.Instruction) {
+	depth := func(e *c13env) int {
+		n := 0
+		for ; e != nil; e = e.up {
+			n++
 		}
-		return out
+		return n
 	}
-	return []c13src{{v, r.Block(), nil}}
+	var same func(a, b *c13env) bool
+	same = func(a, b *c13env) bool {
+		return a == b || (a != nil && b != nil && a.fn == b.fn && a.call == b.call && same(a.up, b.up))
+	}
+	for !same(ex, ey) && ex != nil && ey != nil {
+		if depth(ex) >= depth(ey) {
+			x, ex = ex.call, ex.up
+		} else {
+			y, ey = ey.call, ey.up
+		}
+	}
+	return x, y
+}
+
+// c13isErr: x is, on every path, either nil or the inner conn's error errv
+// (looking through φ and through results of obfs helpers), so `x != nil`
+// implies `errv != nil`.
+func (a *c13anchors) isErr(e *c13env, x, errv ssa.Value, depth int) bool {
+	if errv == nil || depth > 6 {
+		return false
+	}
+	v, e2 := e.subst(x)
+	if v == errv {
+		return true
+	}
+	if ph, ok := v.(*ssa.Phi); ok {
+		some := false
+		for _, ed := range ph.Edges {
+			if isNilConst(ed) {
+				continue
+			}
+			if !a.isErr(e2, ed, errv, depth+1) {
+				return false
+			}
+			some = true
+		}
+		return some
+	}
+	call, idx := c13resultOf(v)
+	if call == nil {
+		return false
+	}
+	f := staticCallee(call)
+	if f == nil || !a.inObfs(f) || e2.onStack(f) {
+		return false
+	}
+	ne := &c13env{fn: f, call: call, up: e2}
+	some, all := false, true
+	allInstrs(f, func(in ssa.Instruction) {
+		r, ok := in.(*ssa.Return)
+		if !ok {
+			return
+		}
+		res := retResults(r)
+		if idx >= len(res) {
+			all = false
+			return
+		}
+		if isNilConst(res[idx]) {
+			return
+		}
+		if a.isErr(ne, res[idx], errv, depth+1) {
+			some = true
+		} else {
+			all = false
+		}
+	})
+	return some && all
+}
+
+// errNonNil: the edge (cond, pol) in context e means "the inner conn's error
+// is non-nil".
+func (a *c13anchors) errNonNil(e *c13env, errv ssa.Value, cond ssa.Value, pol bool) bool {
+	x, isNil, ok := nilTest(cond, pol)
+	return ok && !isNil && a.isErr(e, x, errv, 0)
+}
+
+// c13atom decides a comparison taken with polarity pol in context e.
+type c13atom func(e *c13env, cond ssa.Value, pol bool) bool
+
+// implies: knowing that the boolean `cond` evaluated to `pol` in context e
+// establishes the fact decided by atom.  Looks through negation, helper
+// results bound to one return (c13env.bind), constants (an edge that cannot be
+// taken with this binding establishes anything) and φ-merged `&&` / `||`
+// values: each φ source must either itself imply the fact or only arrive over
+// an edge that does.
+func (a *c13anchors) implies(e *c13env, cond ssa.Value, pol bool, atom c13atom, depth int) bool {
+	if depth > 8 {
+		return false
+	}
+	v, e2 := e.subst(cond)
+	v, pol = stripNot(v, pol)
+	if v2, e3 := e2.subst(v); v2 != v {
+		return a.implies(e3, v2, pol, atom, depth+1)
+	}
+	switch x := v.(type) {
+	case *ssa.Const:
+		if x.Value != nil && x.Value.Kind() == constant.Bool {
+			return constant.BoolVal(x.Value) != pol
+		}
+	case *ssa.BinOp:
+		return atom(e2, x, pol)
+	case *ssa.Phi:
+		for i, ed := range x.Edges {
+			if a.implies(e2, ed, pol, atom, depth+1) {
+				continue
+			}
+			pred := x.Block().Preds[i]
+			if cfgEdgeGuardedBy(pred, x.Block(), func(c ssa.Value, p bool) bool { return a.implies(e2, c, p, atom, depth+1) }) {
+				continue
+			}
+			return false
+		}
+		return true
+	}
+	return false
+}
+
+type c13site struct {
+	e        *c13env
+	from, to *ssa.BasicBlock // CFG edge carrying the value; to == nil: block `from` (a return)
+	// a store in block `from` whose value is read in block `target`, flowing
+	// only along paths that stay out of the blocks in kill (other stores)
+	target *ssa.BasicBlock
+	kill   map[*ssa.BasicBlock]bool
+}
+
+// guardedAt: some site on the way of a returned value is only reached over an
+// edge establishing atom.
+func (a *c13anchors) guardedAt(sites []c13site, atom c13atom) bool {
+	for _, st := range sites {
+		st := st
+		pred := func(c ssa.Value, p bool) bool { return a.implies(st.e, c, p, atom, 0) }
+		if srcGuarded(st.from, st.to, pred) {
+			return true
+		}
+		if st.target != nil && st.target != st.from && !c13flowsAvoiding(st.from, st.target, st.kill, pred) {
+			return true
+		}
+	}
+	return false
+}
+
+// c13flowsAvoiding: block `to` is reachable from block `from` without crossing
+// an edge accepted by pred and without entering a block in kill.
+func c13flowsAvoiding(from, to *ssa.BasicBlock, kill map[*ssa.BasicBlock]bool, pred EdgePred) bool {
+	seen := map[*ssa.BasicBlock]bool{from: true}
+	work := []*ssa.BasicBlock{from}
+	for len(work) > 0 {
+		b := work[len(work)-1]
+		work = work[:len(work)-1]
+		for i, s := range b.Succs {
+			if c, pol, ok := edgeFact(b, i); ok && pred(c, pol) {
+				continue
+			}
+			if s == to {
+				return true
+			}
+			if seen[s] || kill[s] {
+				continue
+			}
+			seen[s] = true
+			work = append(work, s)
+		}
+	}
+	return false
+}
+
+// leaves enumerates the values a returned count can stand for, looking through
+// φ nodes and through results of obfs helpers (one expansion per helper
+// return; while a return is expanded the helper call is bound to it, so guards
+// in the caller on the helper's other results are read for that return).
+// sites lists the places every such value passes: φ edges and returns.
+func (a *c13anchors) leaves(e *c13env, v ssa.Value, sites []c13site, seen map[ssa.Value]bool, depth int, visit func(v ssa.Value, e *c13env, sites []c13site)) {
+	v, e = e.subst(v)
+	with := func(s c13site) []c13site { return append(sites[:len(sites):len(sites)], s) }
+	if depth < 8 {
+		if ph, ok := v.(*ssa.Phi); ok {
+			if seen[ph] {
+				return
+			}
+			seen[ph] = true
+			for i, ed := range ph.Edges {
+				a.leaves(e, ed, with(c13site{e: e, from: ph.Block().Preds[i], to: ph.Block()}), seen, depth+1, visit)
+			}
+			delete(seen, ph)
+			return
+		}
+		if u, ok := v.(*ssa.UnOp); ok && u.Op == token.MUL && !seen[u] {
+			// a local variable with several reaching stores is a φ kept in memory
+			if sts, ok := c13reachingStores(u); ok && len(sts) > 1 {
+				seen[u] = true
+				if e.ld == nil {
+					e.ld = map[*ssa.UnOp]ssa.Value{}
+				}
+				for _, st := range sts {
+					// this store's value reaches the load only along paths that
+					// do not pass another store of the variable
+					kill := map[*ssa.BasicBlock]bool{}
+					for _, o := range sts {
+						if o != st && o.Block() != st.Block() && o.Block() != u.Block() {
+							kill[o.Block()] = true
+						}
+					}
+					e.ld[u] = st.Val
+					a.leaves(e, st.Val, with(c13site{e: e, from: st.Block(), kill: kill, target: u.Block()}), seen, depth+1, visit)
+					delete(e.ld, u)
+				}
+				delete(seen, u)
+				return
+			}
+		}
+		if call, idx := c13resultOf(v); call != nil {
+			if f := staticCallee(call); f != nil && a.inObfs(f) && !e.onStack(f) {
+				ne := &c13env{fn: f, call: call, up: e}
+				if e.bind == nil {
+					e.bind = map[*ssa.Call]*c13bound{}
+				}
+				n := 0
+				allInstrs(f, func(in ssa.Instruction) {
+					r, ok := in.(*ssa.Return)
+					if !ok {
+						return
+					}
+					res := retResults(r)
+					if idx >= len(res) {
+						return
+					}
+					n++
+					e.bind[call] = &c13bound{ret: r, env: ne}
+					a.leaves(ne, res[idx], with(c13site{e: ne, from: r.Block()}), seen, depth+1, visit)
+					delete(e.bind, call)
+				})
+				if n > 0 {
+					return
+				}
+			}
+		}
+	}
+	visit(v, e, sites)
 }
 
 func (s *c13state) wrapperWrite() {
@@ -1212,35 +1643,39 @@ func (s *c13state) wrapperWrite() {
 		return
 	}
 	recv, pP, addrP := fn.Params[0], fn.Params[1], fn.Params[2]
-	obfCall := c13fieldInvoke(fn, "Obfuscate")
-	inner := c13fieldInvoke(fn, "WriteTo")
+	obfCall, oe := a.findInvoke(env, "Obfuscate")
+	inner, ie := a.findInvoke(env, "WriteTo")
 	if obfCall == nil || inner == nil {
-		c.Unres("the Obfuscate and inner WriteTo calls in " + fnName(fn))
+		c.Unres("the Obfuscate and inner WriteTo calls in " + fnName(fn) + " (or its helpers)")
 		return
 	}
+	c.Saw(fnName(obfCall.Parent()))
+	c.Saw(fnName(inner.Parent()))
 	// payload
-	a0, _ := env.subst(obfCall.Call.Args[0])
-	wb := env.locOfSlice(obfCall.Call.Args[1])
+	a0, _ := oe.subst(obfCall.Call.Args[0])
+	wb := oe.locOfSlice(obfCall.Call.Args[1])
 	if wb.root.kind != "field" || wb.root.v != ssa.Value(recv) {
 		c.Undecided("C13.R3:WriteTo:payload", c13r3, p.InstrPos(obfCall), "Obfuscate's output is not a buffer field of the wrapper (shape not recognised)")
 		return
 	}
 	fWB := wb.root.f
-	sent := env.locOfSlice(inner.Call.Args[0])
+	sent := ie.locOfSlice(inner.Call.Args[0])
 	so, soC := sent.off.isConst()
 	wo, woC := wb.off.isConst()
-	a1, _ := env.subst(inner.Call.Args[1])
+	a1, _ := ie.subst(inner.Call.Args[1])
 	good := a0 == ssa.Value(pP) && woC && wo == 0 && sent.isField(recv, fWB) && soC && so == 0 &&
-		env.lenOf(inner.Call.Args[0]).equal(c13term(c13key{kind: "val", v: obfCall}))
+		ie.lenOf(inner.Call.Args[0]).equal(c13term(c13key{kind: "val", v: obfCall}))
 	c.Req(good, "C13.R3:WriteTo:payload", c13r3, p.InstrPos(inner),
-		fmt.Sprintf("the inner WriteTo must send %s[:nn] where nn = Obfuscate(p, %s); it sends %s.%v[%s:+%s] of Obfuscate(%s, …)", fWB.Name(), fWB.Name(), sent.root.kind, c13fieldName(sent.root.f), sent.off, env.lenOf(inner.Call.Args[0]), a0.Name()))
+		fmt.Sprintf("the inner WriteTo must send %s[:nn] where nn = Obfuscate(p, %s); it sends %s.%v[%s:+%s] of Obfuscate(%s, …)", fWB.Name(), fWB.Name(), sent.root.kind, c13fieldName(sent.root.f), sent.off, ie.lenOf(inner.Call.Args[0]), a0.Name()))
 	c.Req(a1 == ssa.Value(addrP), "C13.R3:WriteTo:address", c13r3, p.InstrPos(inner), "the obfuscated packet is not sent to the caller's address")
-	// one critical section
-	m := c13commonMutex(s.la, a.connT, obfCall, inner)
+	// one critical section (when the two calls live in different helpers: of
+	// their call sites in the common caller)
+	lo, li := c13lift(obfCall, oe, inner, ie)
+	m := c13commonMutex(s.la, a.connT, lo, li)
 	if m == nil {
 		c.Bad("C13.R3:WriteTo:region", c13r3, p.InstrPos(inner), "no mutex of the wrapper is held across Obfuscate and the inner WriteTo: concurrent writers share "+fWB.Name())
 	} else {
-		c.Req(s.la.sameRegion(obfCall, inner, m, lockW), "C13.R3:WriteTo:region", c13r3, p.InstrPos(inner), "Obfuscate and the inner WriteTo are not in one critical section of "+m.Name()+": another writer can overwrite "+fWB.Name()+" in between")
+		c.Req(s.la.sameRegion(lo, li, m, lockW), "C13.R3:WriteTo:region", c13r3, p.InstrPos(inner), "Obfuscate and the inner WriteTo are not in one critical section of "+m.Name()+": another writer can overwrite "+fWB.Name()+" in between")
 		n := s.bufferDiscipline(fWB, m, c13r3, "C13.R3:lock")
 		c.Floor("C13.R3:lock:"+fWB.Name(), n, 1)
 	}
@@ -1256,33 +1691,44 @@ func (s *c13state) wrapperWrite() {
 		if len(res) != 2 {
 			return
 		}
-		for _, sc := range c13sources(r, res[0]) {
+		ev, _ := env.subst(res[1])
+		_, evPhi := ev.(*ssa.Phi)
+		// the edge means: the inner write failed, or the error returned here is non-nil
+		errEdge := func(e *c13env, cond ssa.Value, pol bool) bool {
+			if a.errNonNil(e, errv, cond, pol) {
+				return true
+			}
+			x, isNil, ok := nilTest(cond, pol)
+			if !ok || isNil || isNilConst(ev) {
+				return false
+			}
+			xv, _ := e.subst(x)
+			return xv == ev
+		}
+		a.leaves(env, res[0], []c13site{{e: env, from: r.Block()}}, map[ssa.Value]bool{}, 0, func(v ssa.Value, le *c13env, sites []c13site) {
 			nRet++
-			l := env.lin(sc.v)
+			l := le.lin(v)
 			if l.equal(c13term(c13key{kind: "len", v: pP})) {
 				c.OK("C13.R3:WriteTo:count:len(p)", c13r3, p.InstrPos(r))
-				continue
+				return
 			}
 			if k, isC := l.isConst(); isC && k == 0 {
-				ev, _ := env.subst(res[1])
 				// 0 is fine on the inner write's error edge, or together with
 				// an error of the wrapper's own making (never nil)
-				_, evPhi := ev.(*ssa.Phi)
-				okErr := srcGuarded(sc.from, sc.to, c13errNonNil(errv)) || (ev != errv && !isNilConst(ev) && !evPhi)
+				okErr := a.guardedAt(sites, errEdge) || (!a.isErr(env, ev, errv, 0) && !isNilConst(ev) && !evPhi)
 				c.Req(okErr, "C13.R3:WriteTo:count:zero", c13r3, p.InstrPos(r), "0 bytes reported on a path where the write may have succeeded (err == nil)")
-				continue
+				return
 			}
 			what := l.String()
-			sv, _ := env.subst(sc.v)
-			if sv == ssa.Value(obfCall) {
+			if v == ssa.Value(obfCall) {
 				what = "the obfuscated length (Obfuscate's result, len(p)+8)"
-			} else if tup, idx := tupleSource(sv); tup == ssa.Value(inner) && idx == 0 {
+			} else if tup, idx := tupleSource(v); tup == ssa.Value(inner) && idx == 0 {
 				what = "the inner conn's count (obfuscated length, len(p)+8)"
 			}
 			c.Bad("C13.R3:WriteTo:count:other", c13r3, p.InstrPos(r), "WriteTo reports "+what+" instead of len(p): the caller sees a byte count that is not the original packet's")
-		}
+		})
 	})
-	c.Floor("C13.R3:WriteTo:count", nRet, 2)
+	c.Floor("C13.R3:WriteTo:count", nRet, 1)
 }
 
 func c13fieldName(f *types.Var) string {
@@ -1301,50 +1747,54 @@ func (s *c13state) wrapperRead() {
 		return
 	}
 	recv, pP := fn.Params[0], fn.Params[1]
-	inner := c13fieldInvoke(fn, "ReadFrom")
-	deob := c13fieldInvoke(fn, "Deobfuscate")
+	inner, ie := a.findInvoke(env, "ReadFrom")
+	deob, de := a.findInvoke(env, "Deobfuscate")
 	if inner == nil || deob == nil {
-		c.Unres("the inner ReadFrom and Deobfuscate calls in " + fnName(fn))
+		c.Unres("the inner ReadFrom and Deobfuscate calls in " + fnName(fn) + " (or its helpers)")
 		return
 	}
+	c.Saw(fnName(inner.Parent()))
+	c.Saw(fnName(deob.Parent()))
 	innerN, errv := extractOf(inner, 0), extractOf(inner, 2)
-	rb := env.locOfSlice(inner.Call.Args[0])
+	rb := ie.locOfSlice(inner.Call.Args[0])
 	if rb.root.kind != "field" || rb.root.v != ssa.Value(recv) || innerN == nil {
 		c.Undecided("C13.R3:ReadFrom:input", c13r3, p.InstrPos(inner), "the inner read does not fill a buffer field of the wrapper (shape not recognised)")
 		return
 	}
 	fRB := rb.root.f
-	in0 := env.locOfSlice(deob.Call.Args[0])
+	in0 := de.locOfSlice(deob.Call.Args[0])
 	io, ioC := in0.off.isConst()
 	ro, roC := rb.off.isConst()
-	a1, _ := env.subst(deob.Call.Args[1])
-	good := in0.isField(recv, fRB) && ioC && roC && io == ro && env.lenOf(deob.Call.Args[0]).equal(c13term(c13key{kind: "val", v: innerN})) && a1 == ssa.Value(pP)
+	a1, _ := de.subst(deob.Call.Args[1])
+	good := in0.isField(recv, fRB) && ioC && roC && io == ro && de.lenOf(deob.Call.Args[0]).equal(c13term(c13key{kind: "val", v: innerN})) && a1 == ssa.Value(pP)
 	c.Req(good, "C13.R3:ReadFrom:input", c13r3, p.InstrPos(deob),
-		fmt.Sprintf("Deobfuscate must get %s[:n] of the inner read and the caller's p; it gets %s.%s[%s:+%s]", fRB.Name(), in0.root.kind, c13fieldName(in0.root.f), in0.off, env.lenOf(deob.Call.Args[0])))
-	m := c13commonMutex(s.la, a.connT, inner, deob)
+		fmt.Sprintf("Deobfuscate must get %s[:n] of the inner read and the caller's p; it gets %s.%s[%s:+%s]", fRB.Name(), in0.root.kind, c13fieldName(in0.root.f), in0.off, de.lenOf(deob.Call.Args[0])))
+	li, ld := c13lift(inner, ie, deob, de)
+	m := c13commonMutex(s.la, a.connT, li, ld)
 	if m == nil {
 		c.Bad("C13.R3:ReadFrom:region", c13r3, p.InstrPos(deob), "no mutex of the wrapper is held across the inner ReadFrom and Deobfuscate: concurrent readers share "+fRB.Name())
 	} else {
-		c.Req(s.la.sameRegion(inner, deob, m, lockW), "C13.R3:ReadFrom:region", c13r3, p.InstrPos(deob), "the inner ReadFrom and Deobfuscate are not in one critical section of "+m.Name()+": another reader can overwrite "+fRB.Name()+" in between")
+		c.Req(s.la.sameRegion(li, ld, m, lockW), "C13.R3:ReadFrom:region", c13r3, p.InstrPos(deob), "the inner ReadFrom and Deobfuscate are not in one critical section of "+m.Name()+": another reader can overwrite "+fRB.Name()+" in between")
 		n := s.bufferDiscipline(fRB, m, c13r3, "C13.R3:lock")
 		c.Floor("C13.R3:lock:"+fRB.Name(), n, 1)
 	}
-	// returns
-	errEdge := c13errNonNil(errv)
+	// returns: the facts an edge may establish, decided in the context (wrapper
+	// method or helper) the edge belongs to
+	errEdge := func(e *c13env, cond ssa.Value, pol bool) bool { return a.errNonNil(e, errv, cond, pol) }
 	tDeob := c13key{kind: "val", v: deob}
 	tRaw := c13key{kind: "val", v: innerN}
-	accepted := func(cond ssa.Value, pol bool) bool {
-		if errEdge(cond, pol) {
+	accepted := func(e *c13env, cond ssa.Value, pol bool) bool {
+		if errEdge(e, cond, pol) {
 			return true
 		}
-		lo, _, hasLo, _ := env.edgeBound(cond, pol, tDeob, true)
+		lo, _, hasLo, _ := e.edgeBound(cond, pol, tDeob, true)
 		return hasLo && lo >= 1
 	}
-	rawOK := func(cond ssa.Value, pol bool) bool {
-		if errEdge(cond, pol) {
+	rawOK := func(e *c13env, cond ssa.Value, pol bool) bool {
+		if errEdge(e, cond, pol) {
 			return true
 		}
-		_, hi, _, hasHi := env.edgeBound(cond, pol, tRaw, false)
+		_, hi, _, hasHi := e.edgeBound(cond, pol, tRaw, false)
 		return hasHi && hi <= 0
 	}
 	nRet := 0
@@ -1357,24 +1807,23 @@ func (s *c13state) wrapperRead() {
 		if len(res) != 3 {
 			return
 		}
-		for _, sc := range c13sources(r, res[0]) {
+		a.leaves(env, res[0], []c13site{{e: env, from: r.Block()}}, map[ssa.Value]bool{}, 0, func(v ssa.Value, le *c13env, sites []c13site) {
 			nRet++
-			sv, _ := env.subst(sc.v)
 			switch {
-			case sv == ssa.Value(deob):
-				c.Req(srcGuarded(sc.from, sc.to, accepted), "C13.R3:ReadFrom:return:deobfuscated", c13r3, p.InstrPos(r),
+			case v == ssa.Value(deob):
+				c.Req(a.guardedAt(sites, accepted), "C13.R3:ReadFrom:return:deobfuscated", c13r3, p.InstrPos(r),
 					"a return of Deobfuscate's count is reachable without crossing `n > 0` or `err != nil`: a rejected packet surfaces to QUIC as a 0-byte read instead of being skipped")
-			case sv == innerN:
-				c.Req(srcGuarded(sc.from, sc.to, rawOK), "C13.R3:ReadFrom:return:raw", c13r3, p.InstrPos(r),
+			case v == innerN:
+				c.Req(a.guardedAt(sites, rawOK), "C13.R3:ReadFrom:return:raw", c13r3, p.InstrPos(r),
 					"the inner conn's byte count (obfuscated length) is returned on a path where n > 0 and err == nil")
-			case isConstInt(sv, 0):
-				c.Req(srcGuarded(sc.from, sc.to, errEdge), "C13.R3:ReadFrom:return:zero", c13r3, p.InstrPos(r), "a 0-byte read is returned with a nil error instead of reading the next packet")
+			case isConstInt(v, 0):
+				c.Req(a.guardedAt(sites, errEdge), "C13.R3:ReadFrom:return:zero", c13r3, p.InstrPos(r), "a 0-byte read is returned with a nil error instead of reading the next packet")
 			default:
-				c.Bad("C13.R3:ReadFrom:return:other", c13r3, p.InstrPos(r), "ReadFrom returns a count that is neither Deobfuscate's result nor the inner conn's non-positive count: "+env.lin(sc.v).String())
+				c.Bad("C13.R3:ReadFrom:return:other", c13r3, p.InstrPos(r), "ReadFrom returns a count that is neither Deobfuscate's result nor the inner conn's non-positive count: "+le.lin(v).String())
 			}
-		}
+		})
 	})
-	c.Floor("C13.R3:ReadFrom:return", nRet, 2)
+	c.Floor("C13.R3:ReadFrom:return", nRet, 1)
 }
 
 // propagation: every repo call site of the constructor chain uses the result
@@ -1453,5 +1902,7 @@ func (s *c13state) propagation() {
 			}
 		}
 	}
-	c.Floor("C13.R4:propagate", n, 6)
+	// pinned tree: 6 sites (ctor, Gecko, 2 × client, 2 × server); merging the app
+	// call sites into one helper or inlining the constructor must not trip it
+	c.Floor("C13.R4:propagate", n, 2)
 }
